@@ -1049,8 +1049,9 @@ class Variable(CanBehaveLikeAVariable[T]):
         if self._predicate_type_ == PredicateType.SubClassOfPredicate:
             function_output = function_output()
 
-        # Compute truth considering inversion
-        result_truthy = bool(function_output)
+        # Compute truth considering inversion; only the output of a predicate is a truth value, an instance that was
+        # constructed for an inferred variable is a value whatever its own truthiness (e.g. an empty container type).
+        result_truthy = bool(function_output) if self._predicate_type_ else True
         self._is_false_ = result_truthy if self._invert_ else not result_truthy
 
         if self._yield_when_false_ or not self._is_false_:
